@@ -624,7 +624,9 @@ def run(ck):
             # (a) same crystal, same rates, REFINED mesh (Nmax+2): residual of the sheared description vs that of the reduced one.
             #     (at Nmax itself a skewed cell can have a coarse, anisotropic mesh: bcc x shear gives 3e-5 at Nmax 4 and 1e-9 at Nmax 6)
             stats["ratio_sheared"].append(worst2 / max(rworst2, 1e-300))
-            if worst2 > max(ABS_FLOOR, SHEAR_FACTOR * rworst2):
+            # floor 5e-6: a strongly sheared 2-D cell ([[2,1],[1,1]]) reached 1.4e-6 on the unchanged tree (seed 4); an incomplete zone
+            # description gives 2e-5 .. 6e-4
+            if worst2 > max(5 * ABS_FLOOR, SHEAR_FACTOR * rworst2):
                 ck.violation("non-reduced description (lattice x %s, noreduce): diffusion equation residual %.3g at Nmax=%d, reduced description of "
                              "the same crystal and rates %.3g" % (np.asarray(tag[1]).tolist(), worst2, Nmax + 2, rworst2), rep, key="c10-sheared-description")
             # (b) the Green function itself: same Cartesian separation, same sites
